@@ -739,7 +739,9 @@ func (h *harness) final(reason string) {
 			if d.Kind == oClose {
 				// Close calls are serialized: c may have queued behind the ones that finished before it,
 				// each for no longer than that call itself took and no longer than a healthy Close takes
-				if d.Tick1 < c.Tick1 {
+				// (an Open released by a Close's unlock may be logged as returning before that Close does:
+				// for an Open the instant decides, not the order inside it)
+				if d.Tick1 < c.Tick1 || (c.Kind != oClose && d.T1 <= c.T1) {
 					dd := d.T1 - d.T0
 					if cb := h.closeBound(); dd > cb {
 						dd = cb
